@@ -470,7 +470,7 @@ def nontrivial_build(c, res):
     return True
 
 
-def stream_build(ctx, n_quick=260, n_thorough=4000):
+def stream_build(ctx, n_quick=220, n_thorough=4000):
     st = ctx.stream('build', 'generated (V incl. numeric, av incl. None / numbers / shuffled, nest structures: '
                     'partitions, alternatives alone, overlapping nests with alphas, numeric / Beta / Numeric / '
                     'expression nest parameters, mu, choice; faults: overlap, foreign alternative, empty nest, '
@@ -849,7 +849,7 @@ def env_of(c, r):
     return {'beta': c['betas'], 'var': c['rows'][r]}
 
 
-def stream_prob_values(ctx, n_quick=130, n_thorough=1500):
+def stream_prob_values(ctx, n_quick=110, n_thorough=1500):
     st = ctx.stream('prob_values', 'logit / MEV with user ln G_i / nested / nested+mu / cnl / cnl+mu / ordered logit '
                     '/ ordered probit on generated (V, av, nests, mu, Beta values) and 3 random rows each; engine '
                     '(get_value_c) probabilities of ALL alternatives: sum in [1 +- 1e-9], each in [0,1], exactly 0 when '
@@ -884,7 +884,7 @@ def stream_prob_values(ctx, n_quick=130, n_thorough=1500):
                               how='PYTHONPATH=/repo/src /venv/bin/python /verif/lib/impl/c05_values.py < [case]')
         # enclosure check on row 0
         P = res.get('P', {})
-        if 'trees' in P and ci % ctx.n(2, 3) == 0:
+        if 'trees' in P and ci % 3 == 0:
             for k, tree in P['trees'].items():
                 v = P['alts'].get(k)
                 if isinstance(v, list):
